@@ -22,7 +22,8 @@ const c07Alphabet = "0178 9afxX.+-g"
 
 var c07Alpha = strings.ReplaceAll(c07Alphabet, " ", "")
 
-var c07Schemes = []string{"http", "https", "ftp", "ws", "wss", "file", "foo"}
+// "foo" (opaque host) sits between special schemes: the same host text is parsed special -> non-special -> special back to back
+var c07Schemes = []string{"http", "foo", "https", "ftp", "ws", "wss", "file"}
 
 func (c07) Info() core.Info {
 	return core.Info{
